@@ -34,7 +34,10 @@ def generate(rng, tier):
         for bb in [b, b[:-1], b + "x", b.swapcase(), "other"]:
             v = rng.choice(["1", "1.0", "1.5", "2", "0", "1.0nb1", "1.0nb2", "1alpha", "", "10"])
             names += [bb + "-" + v, bb, bb + "-"]
-        for nm in rng.sample(names, 6):
+        v = rng.choice(["1", "1.0", "1.5", "2", "0", "10"])
+        # the base must equal the text before the LAST '-', not merely be a prefix ending at some '-'
+        names += [b + "-bar-" + v, b + "-" + v + "-" + v, b + "--" + v, b + "-vid-1.1", "x-" + b + "-" + v]
+        for nm in rng.sample(names[:15], 5) + rng.sample(names[15:], 3):
             cases.append(Case("dewey.match", [enc(p), enc(nm)], meta={"p": p, "n": nm}))
             if "<" in p or ">" in p:
                 # for brace-free patterns with an operator the two matchers agree
